@@ -185,6 +185,8 @@ def _spec_call(engine, n, st):
     elif name == "typed":
         sv, _, st = engine.eval_merged(n.args[0], st)
         ty = parse_type(n.args[1].value)
+        if sv is None:  # evaluated under an infeasible hypothesis
+            sv = sv_v(S.fresh("vacuous", V), TAny)
         st, b = engine.boxed(st, sv)
         st, u = engine.unboxed(st, b, ty)
         yield st, u
@@ -521,7 +523,7 @@ def call_by_contract(engine, c, fi, args, kwargs, st, node):
             post = post.with_heap(fld, z3.Store(engine.heap_arr(post, fld), o.t, S.fresh("hc_" + fld, V)))
         # exceptional exits
         normal_extra = []
-        for ename, ent in c.raises.items():
+        for ename, ent in ([] if in_spec else c.raises.items()):
             if ent.get("when") is None:
                 w = z3.BoolVal(True)
                 pre_w = pre
@@ -554,7 +556,9 @@ def call_by_contract(engine, c, fi, args, kwargs, st, node):
         post = post.assume(*normal_extra)
         for name, text in c.ensures.items():
             g, post = spec_bool(engine, text, post, extra={"result": result}, ctx=ctx)
-            post = post.assume(g)
+            # inside a specification the call is part of a merged term: what the contract says about its (fresh) result
+            # must survive the merge, so it is recorded as a fact instead of a branch condition
+            post = post.with_facts([g]) if in_spec else post.assume(g)
         if engine.feasible(post):
             yield post.copy(env=st.env, frame=st.frame), result
     finally:
